@@ -428,7 +428,11 @@ impl MinidumpWriter {
         // ========================================================================================
 
         // Collect any last-minute soft errors when trying to restart threads
+        #[cfg(feature = "verif-hooks")]
+        crate::linux::verif_hooks::fire(crate::linux::verif_hooks::Point::BeforeResume);
         dumper.resume_threads(soft_errors.subwriter(WriterError::ResumeThreadsErrors));
+        #[cfg(feature = "verif-hooks")]
+        crate::linux::verif_hooks::fire(crate::linux::verif_hooks::Point::AfterResume);
 
         // If this fails, there's really nothing we can do about that (other than ignore it).
         let dirent = write_soft_errors(buffer, soft_errors)
